@@ -46,7 +46,9 @@ def gen_string_case(rng, tier, i, classes=CLASSES, max_len=None, want_prefix_fla
         H = rng.randint(R, M)
     asz = 1 if cls == "alphabet1" else rng.randint(1, 4)
     if cls == "big_ids":
-        alphabet = rng.sample([-(2 ** 40), -7, 4, 3, 2 ** 31 + 5, 2 ** 50], asz)
+        # (among them neighbours that single precision cannot tell apart)
+        alphabet = rng.sample([-(2 ** 40), -7, 4, 3, 2 ** 31 + 5, 2 ** 50, 2 ** 24, 2 ** 24 + 1, 10 ** 8 + 1,
+                               10 ** 8 + 2, 2 ** 50 + 1], asz)
     else:
         alphabet = list(range(1, asz + 1))
     eos = None if cls == "no_eos" else rng.choice([0, 9, -1])
